@@ -12,5 +12,6 @@ func init() {
 		StratLazy(c, "R-STRAT-LAZY", libPkgs(c))
 		Bound(c, "R-BOUND", libFuncs(c))
 		OneShot(c, "R-ONESHOT", libPkgs(c))
+		IterMeta(c, "R-ITERMETA", libPkgs(c), 40)
 	})
 }
